@@ -6,7 +6,7 @@
      code 100 + m                  : matches except for float fields written with an exponent part whose bits differ
      code 999                      : no configuration matches *)
 From Coq Require Import ZArith NArith List Bool.
-From OG Require Import C06.Model.
+From OG Require Import C06.Model C06.ModelStream.
 Import ListNotations.
 Open Scope Z_scope.
 
@@ -89,6 +89,84 @@ Fixpoint codes_from (k : nat) (cs : list icase) : list (nat * Z) :=
   | c :: r => let x := classify c in if x =? 0 then codes_from (S k) r else (k, x) :: codes_from (S k) r
   end.
 Definition codes := codes_from 0.
+
+(* ------------------------------------------------------------------------------------------------ *)
+(* the block reader: the model, run with the capacities the harness replayed, must deliver exactly the observed blocks
+   (bytes and final buffer capacity) and end the same way.  0 = same, 1 = different *)
+Definition scase := (Z * Z * list (list Z) * bytes * list (bytes * Z) * bool)%type.   (* end (0 EOF, 1 error), max-line-size, schedule, stream, blocks, clean end *)
+
+Fixpoint blocks_eq (a : list (bytes * nat)) (b : list (bytes * Z)) : bool :=
+  match a, b with
+  | [], [] => true
+  | (x, cx) :: a', (y, cy) :: b' => list_beq x y && (Z.of_nat cx =? cy) && blocks_eq a' b'
+  | _, _ => false
+  end.
+
+Definition check_stream (sc : scase) : Z :=
+  let '(e, maxline, sched, body, blocks, ok) := sc in
+  let '(bl, ok') := read_blocks (if e =? 0 then EndEOF else EndErr) (Z.to_nat maxline)
+                                (map (fun ch => (map Z.to_nat ch, false)) sched) [] body in
+  if Bool.eqb ok ok' && blocks_eq bl blocks then 0 else 1.
+
+Fixpoint scodes_from (k : nat) (cs : list scase) : list (nat * Z) :=
+  match cs with
+  | [] => []
+  | c :: r => let x := check_stream c in if x =? 0 then scodes_from (S k) r else (k, x) :: scodes_from (S k) r
+  end.
+Definition scodes := scodes_from 0.
+
+(* ------------------------------------------------------------------------------------------------ *)
+(* the write endpoint: status and stored rows against serve_write (by C06_acceptable_body_acknowledged and
+   C06_acknowledged_write_stores_every_line the answer does not depend on the schedule: acknowledged iff within the limits
+   and acceptable as one block, with exactly those rows; by C06_write_stores_whole_lines_only a refused request leaves
+   rows of complete lines only, in order) *)
+Definition hcase := (Z * option Z * option Z * bool * bytes * bool * list irow)%type.   (* factor, max-body-size, Content-Length, gzip, decoded body, acknowledged, stored rows by time *)
+
+Definition line_stored (c : cfg) (mult : Z) (l : bytes) : list row :=
+  match parse_row dec2f_exact c l with
+  | Some (Ok r) => match scale_row c mult r with Ok r' => [r'] | Err => [] end
+  | _ => []
+  end.
+
+Fixpoint subseq_rows (rows : list row) (irows : list irow) {struct rows} : bool :=
+  match irows with
+  | [] => true
+  | ir :: irs =>
+      match rows with
+      | [] => false
+      | r :: rs => if cmp_row r ir =? 0 then subseq_rows rs irs else subseq_rows rs irows
+      end
+  end.
+
+Definition cmp_hcase (c : cfg) (hc : hcase) : Z :=
+  let '(mult, limit, declared, gz, body, ack, irows) := hc in
+  let toobig := match limit, declared with Some n, Some d => n <? d | _, _ => false end in
+  let over := match limit with Some n => negb gz && (n <? Z.of_nat (length body)) | None => false end in
+  let expect := if toobig || over then Err else accept_block dec2f_exact c mult body in
+  match expect, ack with
+  | Ok rows, true => cmp_list cmp_row rows irows
+  | Err, false => if subseq_rows (flat_map (line_stored c mult) (split_lines body)) irows then 0 else 2
+  | _, _ => 2
+  end.
+
+Fixpoint first_hmask (want : Z) (ms : list Z) (hc : hcase) : option Z :=
+  match ms with
+  | [] => None
+  | m :: r => if cmp_hcase (cfg_of_mask m) hc <=? want then Some m else first_hmask want r hc
+  end.
+
+Definition hclassify (hc : hcase) : Z :=
+  match first_hmask 0 masks hc with
+  | Some m => m
+  | None => match first_hmask 1 masks hc with Some m => 100 + m | None => 999 end
+  end.
+
+Fixpoint hcodes_from (k : nat) (cs : list hcase) : list (nat * Z) :=
+  match cs with
+  | [] => []
+  | c :: r => let x := hclassify c in if x =? 0 then hcodes_from (S k) r else (k, x) :: hcodes_from (S k) r
+  end.
+Definition hcodes := hcodes_from 0.
 
 (* helpers for the generated case files (everything in Z scope) *)
 Definition B (l : list Z) : bytes := map Z.to_N l.
